@@ -18,6 +18,7 @@ import CE.Cte.Lit
 import CE.Cte.ArrEngine
 import CE.Marshal.Struct
 import CE.Marshal.Graph
+import CE.Cte.Escape
 /-
   Line-protocol driver: executes the model's definitions on the operations the Go
   harness ran on the implementation.  Input line:  kind \t id \t op \t arg... \t => \t expected
@@ -60,7 +61,27 @@ def canonEq (args : List String) : String :=
   match args with
   | [keep, a, b] =>
     match Ev.parseList a, Ev.parseList b with
-    | some x, some y => if canon (keep == "1") x == canon (keep == "1") y then "1" else "0"
+    | some x, some y =>
+      -- keep: 0 = comments dropped, 1 = comments kept, 2 = text formats: comments kept and NaN array elements by kind
+      if keep == "2" then (if canonText true x == canonText true y then "1" else "0")
+      else if canon (keep == "1") x == canon (keep == "1") y then "1" else "0"
+    | _, _ => "BADINPUT"
+  | _ => "BADINPUT"
+
+/-- CANON.DIFF keep a b → the first position where the canonical forms differ (debugging aid) -/
+def canonDiff (args : List String) : String :=
+  match args with
+  | [keep, a, b] =>
+    match Ev.parseList a, Ev.parseList b with
+    | some x, some y =>
+      let cx := if keep == "2" then canonText true x else canon (keep == "1") x
+      let cy := if keep == "2" then canonText true y else canon (keep == "1") y
+      let rec go : List CEv → List CEv → Nat → String
+        | [], [], _ => "same"
+        | p :: ps, q :: qs, i => if p == q then go ps qs (i + 1) else s!"@{i}: {reprStr p} <> {reprStr q}"
+        | p :: _, [], i => s!"@{i}: {reprStr p} <> END"
+        | [], q :: _, i => s!"@{i}: END <> {reprStr q}"
+      go cx cy 0
     | _, _ => "BADINPUT"
   | _ => "BADINPUT"
 
@@ -75,6 +96,7 @@ def rerrName : Rules.RErr → String
   | .idEmpty => "ID" | .idChars => "ID"
   | .markerDup => "MARKER" | .refType => "MARKER" | .forwardUnresolved => "MARKER"
   | .apiMisuse => "API" | .arrayType => "ARRTYPE" | .runtime => "RUNTIME" | .unknownAct => "UNKNOWNACT"
+  | .comment => "COMMENT" | .time => "TIME" | .mediaType => "MEDIATYPE"
 
 /-- cfg text: depth,objects,array,id,refs -/
 def parseCfg (s : String) : Option Rules.Cfg :=
@@ -428,8 +450,20 @@ def graphEmit (args : List String) : String :=
     | _, _ => "BADINPUT"
   | _ => "BADINPUT"
 
+/-- CTE.ESCAPE hex(utf-8 string) → the body the encoder writes between the quotes -/
+def cteEscape (args : List String) : String :=
+  match args with
+  | [h] =>
+    match Hex.decode h with
+    | none => "BADINPUT"
+    | some bs =>
+      match String.fromUTF8? (ByteArray.mk bs.toArray) with
+      | none => "UNMODELLED"
+      | some str => Hex.encode (String.ofList (Cte.Escape.escape Cte.Escape.tableSafe str.toList)).toUTF8.toList
+  | _ => "BADINPUT"
+
 def ops : List (String × (List String → String)) :=
-  [("CBE.ENC", cbeEnc), ("CBE.DEC", cbeDec), ("CANON.EQ", canonEq), ("RULES", rulesOp), ("WF.REL", wfRel), ("FWD.EQ", fwdEq), ("MEASURE", measureOp), ("CBE.MINLEN", minLenOp), ("API.DETECT", apiDetect), ("API.VERSION", apiVersion), ("READER.ALL", readerAll), ("READER.FAULT", readerFault), ("TREE.EQ", treeEq), ("ARR.TOLE", arrToLE), ("ARR.FROMLE", arrFromLE), ("CONV", convOp), ("CTE.ARRFMT", cteArrFmt), ("CTE.ARRPARSE", cteArrParse), ("CTE.ENGINE", cteEngine), ("GRAPH.EMIT", graphEmit), ("STRUCT.EMIT", structEmit), ("STRUCT.LOOKUP", structLookup), ("LIT.NUM", litNum), ("LIT.ELEM", litElem), ("LIT.STR", litStr)]
+  [("CBE.ENC", cbeEnc), ("CBE.DEC", cbeDec), ("CANON.EQ", canonEq), ("CANON.DIFF", canonDiff), ("RULES", rulesOp), ("WF.REL", wfRel), ("FWD.EQ", fwdEq), ("MEASURE", measureOp), ("CBE.MINLEN", minLenOp), ("API.DETECT", apiDetect), ("API.VERSION", apiVersion), ("READER.ALL", readerAll), ("READER.FAULT", readerFault), ("TREE.EQ", treeEq), ("ARR.TOLE", arrToLE), ("ARR.FROMLE", arrFromLE), ("CONV", convOp), ("CTE.ARRFMT", cteArrFmt), ("CTE.ARRPARSE", cteArrParse), ("CTE.ENGINE", cteEngine), ("CTE.ESCAPE", cteEscape), ("GRAPH.EMIT", graphEmit), ("STRUCT.EMIT", structEmit), ("STRUCT.LOOKUP", structLookup), ("LIT.NUM", litNum), ("LIT.ELEM", litElem), ("LIT.STR", litStr)]
 
 def splitArrow : List String → List String × String
   | [] => ([], "")
